@@ -101,6 +101,26 @@ def run(res, ctx):
         if rng.random() < 0.5:
             rows += [_r(160, "Buy", 2, core.D(1)), _r(200, "Sell", 2, core.D(10025, 4))]
         cases.append({"rows": rows, "inits": {}})
+    # crafted: the same hair-off-the-cent totals in several securities (sold in lots after a division that does
+    # not terminate): a running AGGREGATE that were snapped before the next security is added shows other digits
+    for _ in range(30 if tier == "quick" else 300):
+        d0 = datetime.date(rng.choice([2018, 2019, 2020]), rng.randint(1, 6), rng.randint(1, 28)).toordinal()
+        rows = []
+        for j, sec in enumerate(rng.sample(["AAA", "BAR", "FOO", "QUX", "ZED"], rng.choice([2, 3, 4]))):
+            nsh = rng.choice([3, 6, 7, 9, 11])
+            def _s(day, act, sh, aps, com=None):
+                return {"sec": sec, "td": d0 + day + j, "sd": d0 + day + j, "act": act, "sh": core.D(sh), "aps": aps,
+                        "com": com, "cur": None, "rate": None, "af": None}
+            cost = core.D(rng.choice([1000, 1001, 2000, 700, 50]), 2)
+            rows += [_s(0, "Buy", nsh, cost, core.D(rng.choice([0, 1, 100]), 2))]
+            left = nsh
+            day = 40
+            while left > 0:
+                lot = rng.randint(1, left)
+                rows.append(_s(day, "Sell", lot, core.D(rng.choice([1100, 1200, 2500, 900]), 2)))
+                left -= lot
+                day += 40
+        cases.append({"rows": rows, "inits": {}})
     rs = corecheck.run_cases(ctx, cases, render=True)
     gains_jobs = []
     for r in rs:
@@ -175,6 +195,31 @@ def run(res, ctx):
             if abs(agg.get(k, ZERO) - exp.get(k, ZERO)) > Fraction(1, 10 ** 9):
                 res.violation("failing-input", "aggregate figure %s is %s, the error-free securities sum to %s" % (k, agg.get(k), exp.get(k, ZERO)),
                               {"input": r["hc"]})
+        # ... and exactly: the aggregate is the securities' own totals (as their tables show them) added one after the
+        # other, in the order of the security names, with the arithmetic's own addition - nothing else (no rounding or
+        # snapping of the running aggregate) feeds into the next addition
+        acc_t, acc_y, ok_exact = ZERO, {}, not res.violations
+        for sname, so in sorted(good, key=lambda x: x[0].encode()):
+            ft = footer_of(full["secs"][sname])
+            if any(v is None for v in ft.values()):
+                ok_exact = False
+                break
+            for k_, v_ in ft.items():
+                if k_ == "Total":
+                    acc_t = rates_fit(acc_t + v_) if acc_t is not None else None
+                else:
+                    prev = acc_y.get(k_, ZERO)
+                    acc_y[k_] = rates_fit(prev + v_) if prev is not None else None
+        if ok_exact and good and acc_t is not None and all(v is not None for v in acc_y.values()):
+            st["exact-aggregate-checks"] += 1
+            want = dict(acc_y)
+            want["Since inception"] = acc_t
+            for k_ in sorted(set(agg) | set(want)):
+                if agg.get(k_) != want.get(k_) and not (agg.get(k_) is None and want.get(k_) == ZERO):
+                    res.violation("failing-input",
+                                  "aggregate figure %s is %s; adding the securities' own totals one after the other gives %s" % (k_, agg.get(k_), want.get(k_)),
+                                  {"input": r["hc"]})
+                    break
         # model (dec) of the yearly maps: bit-exact figures
         gains_jobs.append((r, good, agg))
         # rounding is display-only: cents view = rounded full view, cell by cell
